@@ -2,7 +2,7 @@
    (together with: the own address never changes, no debug assertion / overflow
    is ever hit, every destination chosen by Foca has a foreign address) by
    every public call.  Used by C06, C09, C15, C16, C19. *)
-From Foca Require Import Laws L_Lists MembersM ProbeM BcastM FocaM L_Members L_MembersInv L_Bcast Hoare.
+From Foca Require Import Laws L_Lists MembersM ProbeM BcastM FocaM L_Members L_MembersInv L_Bcast L_Fill Hoare.
 
 Section Inv.
 Context {Id Addr : Type} {IO : IdOps Id Addr} {CO : CodecOps Id} {HO : HandlerOps Id}.
@@ -41,7 +41,7 @@ Record cfg_ok (c : config) : Prop := {
   c_pg : periodic_ok (periodic_gossip c)
 }.
 
-Definition upd_ok (e : @entry Addr) : Prop := 1 <= e_tx e.
+Definition upd_ok (e : @entry Addr) : Prop := 1 <= e_tx e /\ exists m : member, e_data e = enc_mem m.
 Definition cus_ok (e : @entry hkey) : Prop := 1 <= e_tx e /\ 1 <= len (e_data e) <= u16_max.
 
 Definition probe_ok (a0 : Addr) (p : probe Id) : Prop :=
@@ -55,16 +55,23 @@ Record WF (f : foca) : Prop := {
   wf_cap : send_cap f = max_packet_size (cfg f);
   wf_cfg : cfg_ok (cfg f);
   wf_upd : Forall upd_ok (updates f);
+  wf_updk : NoDup (map e_key (updates f));   (* at most one pending update per address *)
   wf_cus : Forall cus_ok (customs f);
   wf_probe : probe_ok (addr_of (identity f)) (prb f)
 }.
+
+(* An arbitrary property of emitted effects carried through the whole pass: it must hold
+   of everything that is not a datagram, and of the datagram a successful send_message
+   from a well-formed state emits (instantiated later: wire format, C07). *)
+Variable Qe : effect -> Prop.
+Hypothesis Qe_nonsend : forall e : effect, is_send e = false -> Qe e.
 
 (* destinations Foca may use: foreign addresses, or identities named by the caller / a peer *)
 Definition dst_ok (a0 : Addr) (al : Id -> Prop) (e : effect) : Prop :=
   match e with
   | Send d _ => addr_of d <> a0 \/ al d
   | _ => True
-  end.
+  end /\ Qe e.
 
 Definition RI (a0 : Addr) (al : Id -> Prop) (s : rs) : Prop :=
   WF (st s) /\ addr_of (identity (st s)) = a0 /\ Forall (dst_ok a0 al) (out s).
@@ -126,9 +133,14 @@ Proof.
   intros Hg s (W & A & O). cbn. destruct (Hg _ W A) as [W' A']. (split; [|split]; auto).
 Qed.
 
+Lemma keeps_emit_ns a0 al e : is_send e = false -> keeps (RI a0 al) (emit e).
+Proof.
+  intros Hn. apply keeps_emit. split; [destruct e; cbn in *; auto; discriminate|apply Qe_nonsend; exact Hn].
+Qed.
+
 (* ---- field-wise preservation of WF ---- *)
-Lemma WF_set_updates f u : WF f -> Forall upd_ok u -> WF (set_updates f u).
-Proof. intros [] H. constructor; auto. Qed.
+Lemma WF_set_updates f u : WF f -> Forall upd_ok u -> NoDup (map e_key u) -> WF (set_updates f u).
+Proof. intros [] H H2. constructor; auto. Qed.
 
 Lemma WF_set_customs f u : WF f -> Forall cus_ok u -> WF (set_customs f u).
 Proof. intros [] H. constructor; auto. Qed.
@@ -141,18 +153,36 @@ Proof. intros []. constructor; auto. Qed.
 
 Lemma upd_ok_dec (e : @entry Addr) :
   upd_ok e -> 1 < e_tx e -> upd_ok (mkEntry (e_tx e - 1) (e_data e) (e_key e)).
-Proof. unfold upd_ok. cbn. lia. Qed.
+Proof. unfold upd_ok. cbn. intros [H1 H2] H3. split; [lia|exact H2]. Qed.
 
 Lemma cus_ok_dec (e : @entry hkey) :
   cus_ok e -> 1 < e_tx e -> cus_ok (mkEntry (e_tx e - 1) (e_data e) (e_key e)).
 Proof. unfold cus_ok. cbn. lia. Qed.
 
+Lemma add_or_replace_keys (l : backlog Addr) (k : Addr) data tx :
+  NoDup (map e_key l) -> NoDup (map e_key (add_or_replace Addr addr_eqb l k data tx)).
+Proof.
+  intros ND. unfold add_or_replace. rewrite map_app. cbn [map e_key].
+  assert (NDf : NoDup (map e_key (filter (fun e => negb (addr_eqb k (e_key e))) l))).
+  { clear -ND. induction l as [|a t IH]; cbn; [constructor|].
+    cbn in ND. inversion ND as [|? ? Hn Nt]; subst.
+    destruct (negb (addr_eqb k (e_key a))); cbn; [|apply IH; exact Nt].
+    constructor; [|apply IH; exact Nt].
+    intros Hin. apply Hn. apply in_map_iff in Hin. destruct Hin as (x & Ex & Hx).
+    apply filter_In in Hx. apply in_map_iff. exists x. tauto. }
+  apply NoDup_app_one; auto.
+  intros Hin. apply in_map_iff in Hin. destruct Hin as (x & Ex & Hx).
+  apply filter_In in Hx. destruct Hx as [_ Hx]. apply negb_true_iff, addr_eqb_neq in Hx. congruence.
+Qed.
+
 (* ---- add_update ---- *)
 Lemma keeps_add_update a0 al m : keeps (RI a0 al) (add_update m).
 Proof.
   apply keeps_modify. intros f W A. split; auto.
-  apply WF_set_updates; auto. apply add_or_replace_Forall; [apply wf_upd; auto|].
-  unfold upd_ok, max_tx. cbn. destruct (wf_cfg f W). lia.
+  apply WF_set_updates; auto.
+  - apply add_or_replace_Forall; [apply wf_upd; auto|].
+    unfold upd_ok, max_tx. cbn. destruct (wf_cfg f W). split; [lia|exists m; reflexivity].
+  - apply add_or_replace_keys. apply (wf_updk _ W).
 Qed.
 
 (* ---- feed_loop: count is bounded by the room consumed ---- *)
@@ -168,66 +198,171 @@ Proof.
 Qed.
 
 (* ---- send_message ---- *)
+Lemma keeps_send_body a0 al dst msg maxp room idx :
+  room <= u16_max -> (2 < room -> 2 <= maxp - (room - 2)) ->
+  keeps (RI a0 al) (send_body rnd dst msg maxp room idx).
+Proof.
+  intros Hr Hm. unfold send_body.
+  destruct (needs_piggyback msg && (2 <? room)) eqn:NP; [|apply keeps_ret].
+  apply andb_true_iff in NP. destruct NP as [_ NP].
+  assert (Hm' : 2 <= maxp - (room - 2)) by (apply Hm; lia).
+  destruct (piggyback_only_active msg).
+  - unfold estimate_feed_capacity.
+    destruct ((maxp - (room - 2)) / 2 =? 0) eqn:DZ.
+    { exfalso. assert (1 <= (maxp - (room - 2)) / 2) by (apply N.div_le_lower_bound; lia). lia. }
+    apply keeps_bind; [apply keeps_ret|]. intros cap.
+    apply keeps_bind.
+    { unfold choose_active. apply keeps_bind; [intros s Hs; exact Hs|]. intros f. apply keeps_with_ctr. }
+    intros chosen.
+    apply keeps_bind; [apply feed_loop_ok; lia|].
+    intros [[cnt fb] rleft]. apply keeps_ret.
+  - apply keeps_get_bind. intros s0 (W & A & O).
+    assert (KP : forall s, s = s0 -> RI a0 al s) by (intros s ->; split; [|split]; auto).
+    eapply t_conseq with (P' := RI a0 al) (R' := fun _ => RI a0 al) (E' := RI a0 al); auto.
+    destruct (updates (st s0)) as [|u0 us] eqn:EU; [apply keeps_ret|].
+    apply keeps_bind; [apply keeps_ask|]. intros hint.
+    assert (NoP : snd (fill_gen Addr 0 hint (u0 :: us) (room - 2) u16_max) = None).
+    { apply fill_gen_no_panic. rewrite <- EU. eapply Forall_impl; [|apply (wf_upd _ W)].
+      intros e [He _]. split; [exact He|discriminate]. }
+    destruct (fill_gen Addr 0 hint (u0 :: us) (room - 2) u16_max) as [[[w n] kept] p] eqn:FG.
+    cbn in NoP. subst p.
+    apply keeps_bind; [|intros; apply keeps_ret].
+    apply keeps_modify. intros f Wf Af. split; auto. apply WF_set_updates; auto.
+    + eapply fill_gen_kept; [apply upd_ok_dec| |exact FG]. rewrite <- EU. apply (wf_upd _ W).
+    + eapply (fill_gen_keys Addr); [|exact FG]. rewrite <- EU. apply (wf_updk _ W).
+Qed.
+
+Lemma keeps_send_customs a0 al dst msg room3 idx :
+  keeps (RI a0 al) (send_customs rnd dst msg room3 idx).
+Proof.
+  unfold send_customs. apply keeps_get_bind. intros s1 (W1 & A1 & O1).
+  assert (KP : forall s, s = s1 -> RI a0 al s) by (intros s ->; split; [|split]; auto).
+  eapply t_conseq with (P' := RI a0 al) (R' := fun _ => RI a0 al) (E' := RI a0 al); auto.
+  destruct ((0 <? room3) && allow_custom_broadcasts msg && h_should_add (hst (st s1)) dst);
+    [|apply keeps_ret].
+  destruct (customs (st s1)) as [|c0 cs] eqn:EC; [apply keeps_ret|].
+  apply keeps_bind; [apply keeps_ask|]. intros hint.
+  assert (NoP : snd (fill_gen hkey 2 hint (c0 :: cs) room3 usize_max) = None).
+  { apply fill_gen_no_panic. rewrite <- EC. eapply Forall_impl; [|apply (wf_cus _ W1)].
+    intros e [He1 He2]. split; [exact He1|lia]. }
+  destruct (fill_gen hkey 2 hint (c0 :: cs) room3 usize_max) as [[[w n] kept] p] eqn:FG.
+  cbn in NoP. rewrite NoP.
+  apply keeps_bind; [|intros; apply keeps_ret].
+  apply keeps_modify. intros f Wf Af. split; auto. apply WF_set_customs; auto.
+  eapply fill_gen_kept; [apply cus_ok_dec| |exact FG]. rewrite <- EC. apply (wf_cus _ W1).
+Qed.
+
+(* send_body / send_customs emit nothing *)
+Definition noemit {A} (m : M A) : Prop := forall s, out (fst (m s)) = out s.
+Lemma noemit_bind {A B} (m : M A) (f : A -> M B) : noemit m -> (forall a, noemit (f a)) -> noemit (bind m f).
+Proof.
+  intros Hm Hf s. unfold bind. specialize (Hm s). destruct (m s) as [s' [a|e|p]]; cbn in *; auto.
+  rewrite Hf. exact Hm.
+Qed.
+Lemma noemit_ret {A} (a : A) : noemit (ret a). Proof. intros s. reflexivity. Qed.
+Lemma noemit_fail {A} e : noemit (@fail Id Addr HO A e). Proof. intros s. reflexivity. Qed.
+Lemma noemit_panic {A} p : noemit (@panic Id Addr HO A p). Proof. intros s. reflexivity. Qed.
+Lemma noemit_get : noemit (@get Id Addr HO). Proof. intros s. reflexivity. Qed.
+Lemma noemit_modify g : noemit (@modify Id Addr HO g). Proof. intros s. reflexivity. Qed.
+Lemma noemit_ask r : noemit (ask rnd r). Proof. intros s. reflexivity. Qed.
+Lemma noemit_with_ctr {A} (g : N -> A * N) : noemit (with_ctr g).
+Proof. intros s. unfold with_ctr. destruct (g (ctr s)). reflexivity. Qed.
+Lemma noemit_feed_loop l : forall room count acc, noemit (feed_loop l room count acc).
+Proof.
+  induction l as [|m t IH]; intros room count acc; cbn [feed_loop]; [apply noemit_ret|].
+  destruct (room <? len (enc_mem m)); [apply noemit_ret|].
+  destruct (count =? u16_max); [apply noemit_panic|apply IH].
+Qed.
+
+Lemma noemit_send_body dst msg maxp room idx : noemit (send_body rnd dst msg maxp room idx).
+Proof.
+  unfold send_body. destruct (needs_piggyback msg && _); [|apply noemit_ret].
+  destruct (piggyback_only_active msg).
+  - apply noemit_bind.
+    { unfold estimate_feed_capacity. destruct (_ =? 0); [apply noemit_panic|apply noemit_ret]. }
+    intros cap. apply noemit_bind.
+    { unfold choose_active. apply noemit_bind; [apply noemit_get|]. intros f1. apply noemit_with_ctr. }
+    intros chosen. apply noemit_bind; [apply noemit_feed_loop|]. intros [[c b] l]. apply noemit_ret.
+  - apply noemit_bind; [apply noemit_get|]. intros f0.
+    destruct (updates f0); [apply noemit_ret|].
+    apply noemit_bind; [apply noemit_ask|]. intros hint.
+    destruct (fill_gen Addr 0 hint _ _ _) as [[[w n] kept] p].
+    destruct p; [apply noemit_panic|].
+    apply noemit_bind; [apply noemit_modify|intros; apply noemit_ret].
+Qed.
+
+Lemma noemit_send_customs dst msg room3 idx : noemit (send_customs rnd dst msg room3 idx).
+Proof.
+  unfold send_customs. apply noemit_bind; [apply noemit_get|]. intros f1.
+  destruct (_ && _ && _); [|apply noemit_ret].
+  destruct (customs f1); [apply noemit_ret|].
+  apply noemit_bind; [apply noemit_ask|]. intros hint.
+  destruct (fill_gen hkey 2 hint _ _ _) as [[[w n] kept] p].
+  destruct p; [apply noemit_panic|].
+  apply noemit_bind; [apply noemit_modify|intros; apply noemit_ret].
+Qed.
+
+(* the shape of send_message once the header fits *)
+Lemma send_message_unfold dst msg (s : rs) :
+  send_cap (st s) = max_packet_size (cfg (st s)) ->
+  len (enc_hdr (mkHeader (identity (st s)) (incarnation (st s)) dst msg)) <= max_packet_size (cfg (st s)) ->
+  send_message rnd dst msg s =
+  match send_body rnd dst msg (max_packet_size (cfg (st s)))
+                  (max_packet_size (cfg (st s)) - len (enc_hdr (mkHeader (identity (st s)) (incarnation (st s)) dst msg)))
+                  (len (filter is_send (out s))) s with
+  | (s1, ROk (body, room3)) =>
+      match send_customs rnd dst msg room3 (len (filter is_send (out s))) s1 with
+      | (s2, ROk cust) =>
+          (mkRs (st s2)
+                (out s2 ++ [Send dst (enc_hdr (mkHeader (identity (st s)) (incarnation (st s)) dst msg) ++ body ++ cust)])
+                (ctr s2), ROk tt)
+      | (s2, RErr e) => (s2, RErr e)
+      | (s2, RPanic p) => (s2, RPanic p)
+      end
+  | (s1, RErr e) => (s1, RErr e)
+  | (s1, RPanic p) => (s1, RPanic p)
+  end.
+Proof.
+  intros Cap Fit. unfold send_message, bind at 1, get at 1. rewrite Cap, N.eqb_refl. cbn [negb].
+  replace (max_packet_size (cfg (st s)) <? len (enc_hdr _)) with false by lia.
+  unfold bind at 1, num_sends at 1. unfold bind at 1.
+  destruct (send_body rnd dst msg _ _ _ s) as [s1 [[body room3]|e|p]]; reflexivity.
+Qed.
+
+(* the datagram emitted by a successful send_message from a well-formed state has property Qe *)
+Hypothesis Qe_send : forall dst msg (s : rs),
+  WF (st s) ->
+  match send_message rnd dst msg s with
+  | (s', ROk _) => forall b, out s' = out s ++ [Send dst b] -> Qe (Send dst b)
+  | _ => True
+  end.
+
 Lemma keeps_send_message a0 al dst msg :
   (addr_of dst <> a0 \/ al dst) -> keeps (RI a0 al) (send_message rnd dst msg).
 Proof.
-  intros Hd. unfold send_message. apply keeps_get_bind. intros s0 (W & A & O).
-  rewrite (wf_cap _ W), N.eqb_refl. cbn [negb].
-  set (hb := enc_hdr _).
-  destruct (max_packet_size (cfg (st s0)) <? len hb) eqn:Fit.
-  { intros s ->. cbn. (split; [|split]; auto). }
+  intros Hd. intros s H. pose proof H as (W & A & O).
+  pose proof (Qe_send dst msg s W) as HQ.
+  set (hb := enc_hdr (mkHeader (identity (st s)) (incarnation (st s)) dst msg)) in *.
+  destruct (max_packet_size (cfg (st s)) <? len hb) eqn:Fit.
+  { unfold send_message, bind at 1, get at 1. rewrite (wf_cap _ W), N.eqb_refl. cbn [negb].
+    fold hb. rewrite Fit. exact H. }
+  assert (Fit' : len hb <= max_packet_size (cfg (st s))) by lia.
+  rewrite (send_message_unfold dst msg s (wf_cap _ W) Fit') in HQ |- *. fold hb in HQ |- *.
   pose proof (wf_cfg _ W) as CF. destruct CF as [_ _ [P1 P2] _ _ _].
-  assert (KP : forall s, s = s0 -> RI a0 al s) by (intros s ->; split; [|split]; auto).
-  eapply t_conseq with (P' := RI a0 al) (R' := fun _ => RI a0 al) (E' := RI a0 al); auto.
-  apply keeps_bind. { intros s Hs. cbn. exact Hs. }
-  intros idx.
-  eapply t_bind with (R1 := fun _ => RI a0 al).
-  - (* body *)
-    destruct (needs_piggyback msg && (2 <? max_packet_size (cfg (st s0)) - len hb)) eqn:NP;
-      [|apply keeps_ret].
-    apply andb_true_iff in NP. destruct NP as [_ NP].
-    destruct (piggyback_only_active msg).
-    + unfold estimate_feed_capacity.
-      destruct ((max_packet_size (cfg (st s0)) - (max_packet_size (cfg (st s0)) - len hb - 2)) / 2 =? 0) eqn:DZ.
-      { exfalso.
-        assert (2 <= max_packet_size (cfg (st s0)) - (max_packet_size (cfg (st s0)) - len hb - 2)) by lia.
-        assert (1 <= (max_packet_size (cfg (st s0)) - (max_packet_size (cfg (st s0)) - len hb - 2)) / 2).
-        { apply N.div_le_lower_bound; lia. }
-        lia. }
-      apply keeps_bind; [apply keeps_ret|]. intros cap.
-      apply keeps_bind.
-      { unfold choose_active. apply keeps_bind; [intros s Hs; exact Hs|]. intros f. apply keeps_with_ctr. }
-      intros chosen.
-      apply keeps_bind; [apply feed_loop_ok; lia|].
-      intros [[cnt fb] rleft]. apply keeps_ret.
-    + destruct (updates (st s0)) as [|u0 us] eqn:EU; [apply keeps_ret|].
-      apply keeps_bind; [apply keeps_ask|]. intros hint.
-      pose proof (fill_gen_no_panic Addr 0 hint (u0 :: us) (max_packet_size (cfg (st s0)) - len hb - 2) u16_max) as NoP.
-      destruct (fill_gen Addr 0 hint (u0 :: us) _ u16_max) as [[[w n] kept] p] eqn:FG.
-      cbn in NoP. rewrite NoP.
-      2:{ rewrite <- EU. eapply Forall_impl; [|apply (wf_upd _ W)]. intros e He. split; [exact He|discriminate]. }
-      apply keeps_bind; [|intros; apply keeps_ret].
-      apply keeps_modify. intros f Wf Af. split; auto. apply WF_set_updates; auto.
-      eapply fill_gen_kept; [apply upd_ok_dec| |exact FG]. rewrite <- EU. apply (wf_upd _ W).
-  - intros [body room3].
-    apply keeps_get_bind. intros s1 (W1 & A1 & O1).
-    eapply t_conseq with (P' := RI a0 al) (R' := fun _ => RI a0 al) (E' := RI a0 al); auto.
-    2:{ intros s ->. (split; [|split]; auto). }
-    eapply t_bind with (R1 := fun _ => RI a0 al).
-    + destruct ((0 <? room3) && allow_custom_broadcasts msg && h_should_add (hst (st s1)) dst);
-        [|apply keeps_ret].
-      destruct (customs (st s1)) as [|c0 cs] eqn:EC; [apply keeps_ret|].
-      apply keeps_bind; [apply keeps_ask|]. intros hint.
-      pose proof (fill_gen_no_panic hkey 2 hint (c0 :: cs) room3 usize_max) as NoP.
-      destruct (fill_gen hkey 2 hint (c0 :: cs) room3 usize_max) as [[[w n] kept] p] eqn:FG.
-      cbn in NoP. rewrite NoP.
-      2:{ rewrite <- EC. eapply Forall_impl; [|apply (wf_cus _ W1)]. intros e [He1 He2]. split; [exact He1|lia]. }
-      apply keeps_bind; [|intros; apply keeps_ret].
-      apply keeps_modify. intros f Wf Af. split; auto. apply WF_set_customs; auto.
-      eapply fill_gen_kept; [apply cus_ok_dec| |exact FG]. rewrite <- EC. apply (wf_cus _ W1).
-    + intros cust. apply keeps_emit. cbn. exact Hd.
+  pose proof (keeps_send_body a0 al dst msg (max_packet_size (cfg (st s)))
+                (max_packet_size (cfg (st s)) - len hb) (len (filter is_send (out s)))
+                ltac:(lia) ltac:(lia) s H) as K1.
+  pose proof (noemit_send_body dst msg (max_packet_size (cfg (st s)))
+                (max_packet_size (cfg (st s)) - len hb) (len (filter is_send (out s))) s) as N1.
+  destruct (send_body rnd dst msg _ _ _ s) as [s1 [[body room3]|e|p]]; cbn [fst] in N1; cbv beta iota in K1 |- *; auto.
+  pose proof (keeps_send_customs a0 al dst msg room3 (len (filter is_send (out s))) s1 K1) as K2.
+  pose proof (noemit_send_customs dst msg room3 (len (filter is_send (out s))) s1) as N2.
+  destruct (send_customs rnd dst msg room3 _ s1) as [s2 [cust|e|p]]; cbn [fst] in N2; cbv beta iota in K2 |- *; auto.
+  destruct K2 as (W2 & A2 & O2).
+  split; [exact W2|split; [exact A2|]].
+  apply Forall_app. split; [exact O2|]. constructor; [|constructor].
+  split; [exact Hd|]. apply HQ. cbn. rewrite N2, N1. reflexivity.
 Qed.
-
 
 Lemma WF_same f f' :
   WF f ->
@@ -315,11 +450,11 @@ Lemma keeps_become_undead a0 al : keeps (RI a0 al) become_undead.
 Proof.
   unfold become_undead. apply keeps_bind.
   - apply keeps_modify. intros f W A. split; auto. eapply WF_same; eauto. apply probe_ok_clear.
-  - intros _. apply keeps_emit. exact I.
+  - intros _. apply keeps_emit_ns; reflexivity.
 Qed.
 
 Lemma keeps_submit_periodic a0 al p t : keeps (RI a0 al) (submit_periodic p t).
-Proof. unfold submit_periodic. destruct p as [[fq n]|]; [apply keeps_emit; exact I|apply keeps_ret]. Qed.
+Proof. unfold submit_periodic. destruct p as [[fq n]|]; [apply keeps_emit_ns; reflexivity|apply keeps_ret]. Qed.
 
 Ltac run_keeps H :=
   match type of H with
@@ -340,11 +475,11 @@ Proof.
   destruct (num_active (mems (st s)) =? 0) eqn:Z; [lia|].
   run_keeps H.
   apply keeps_bind. { apply keeps_modify. intros f W A. split; auto. eapply WF_same; eauto. apply (wf_probe _ W). }
-  intros _. apply keeps_bind; [apply keeps_emit; exact I|]. intros _.
+  intros _. apply keeps_bind; [apply keeps_emit_ns; reflexivity|]. intros _.
   apply keeps_bind; [apply keeps_submit_periodic|]. intros _.
   apply keeps_bind; [apply keeps_submit_periodic|]. intros _.
   apply keeps_bind; [apply keeps_submit_periodic|]. intros _.
-  apply keeps_emit. exact I.
+  apply keeps_emit_ns; reflexivity.
 Qed.
 
 Lemma become_disconnected_ok a0 al s :
@@ -356,7 +491,7 @@ Proof.
   rewrite N. cbn [N.eqb negb]. rewrite N.eqb_refl. cbn [negb].
   run_keeps H.
   apply keeps_bind. { apply keeps_modify. intros f W A. split; auto. eapply WF_same; eauto. apply probe_ok_clear. }
-  intros _. apply keeps_emit. exact I.
+  intros _. apply keeps_emit_ns; reflexivity.
 Qed.
 
 Lemma keeps_adjust a0 al : keeps (RI a0 al) adjust_connection_state.
@@ -411,10 +546,10 @@ Proof.
   unfold handle_apply_summary.
   apply keeps_bind.
   { apply keeps_when. apply keeps_bind; [apply keeps_when; apply keeps_add_update|].
-    intros _. apply keeps_get_ri. intros f0 _ _. apply keeps_when. apply keeps_emit. exact I. }
+    intros _. apply keeps_get_ri. intros f0 _ _. apply keeps_when. apply keeps_emit_ns; reflexivity. }
   intros _. apply keeps_bind.
-  { destruct (s_conflict sm); try apply keeps_ret. apply keeps_emit. exact I. }
-  intros _. apply keeps_when. apply keeps_emit. exact I.
+  { destruct (s_conflict sm); try apply keeps_ret. apply keeps_emit_ns; reflexivity. }
+  intros _. apply keeps_when. apply keeps_emit_ns; reflexivity.
 Qed.
 
 Lemma WF_set_mems f ms :
@@ -466,7 +601,7 @@ Proof.
   destruct (negb (wins new_id (identity f0))); [apply keeps_ret|].
   apply keeps_bind.
   { apply keeps_change_identity. rewrite (renew_addr _ _ R). exact A0. }
-  intros _. apply keeps_bind; [apply keeps_emit; exact I|]. intros _. apply keeps_ret.
+  intros _. apply keeps_bind; [apply keeps_emit_ns; reflexivity|]. intros _. apply keeps_ret.
 Qed.
 
 Lemma keeps_handle_self_update a0 al inc st0 : keeps (RI a0 al) (handle_self_update rnd inc st0).
@@ -645,7 +780,7 @@ Proof.
       - intros E. exfalso. apply PFm. exact E. }
     apply okres_keeps; [|exact H3].
     apply keeps_bind; [apply keeps_handle_apply_summary|]. intros _.
-    apply keeps_get_ri. intros f0 _ _. apply keeps_when. apply keeps_emit. exact I. }
+    apply keeps_get_ri. intros f0 _ _. apply keeps_when. apply keeps_emit_ns; reflexivity. }
   intros _ s3 _ H3. clear H2 s2.
   (* members.next *)
   unfold bind at 1. unfold get at 1. unfold bind at 1. unfold with_ctr.
@@ -672,10 +807,10 @@ Proof.
       unfold probe_start in PS. inversion PS as [[Epp En]]. unfold probe_ok. cbn. rewrite A. exact Fm. }
     apply okres_keeps; [|exact H5].
     apply keeps_bind; [apply keeps_send_message; left; exact Fm|]. intros _.
-    apply keeps_get_ri. intros f0 _ _. apply keeps_emit. exact I. }
+    apply keeps_get_ri. intros f0 _ _. apply keeps_emit_ns; reflexivity. }
   intros _ s5 _ H5.
   apply okres_keeps; [|exact H5].
-  apply keeps_get_ri. intros f0 _ _. apply keeps_bind; [apply keeps_emit; exact I|]. intros _.
+  apply keeps_get_ri. intros f0 _ _. apply keeps_bind; [apply keeps_emit_ns; reflexivity|]. intros _.
   destruct incomplete; [apply keeps_fail|apply keeps_ret].
 Qed.
 
@@ -733,21 +868,22 @@ Proof.
   destruct (max_packet_size (cfg f) <? len (enc_hdr _)); [apply frames_fail|].
   apply frames_bind; [apply frames_num_sends|]. intros idx.
   apply frames_bind.
-  - destruct (needs_piggyback msg && _); [|apply frames_ret].
+  - unfold send_body. destruct (needs_piggyback msg && _); [|apply frames_ret].
     destruct (piggyback_only_active msg).
     + apply frames_bind.
       { unfold estimate_feed_capacity. destruct (_ =? 0); [apply frames_panic|apply frames_ret]. }
       intros cap. apply frames_bind.
       { unfold choose_active. apply frames_bind; [apply frames_get|]. intros f1. apply frames_with_ctr. }
       intros chosen. apply frames_bind; [apply frames_feed_loop|]. intros [[c b] l]. apply frames_ret.
-    + destruct (updates f); [apply frames_ret|].
+    + apply frames_bind; [apply frames_get|]. intros f0.
+      destruct (updates f0); [apply frames_ret|].
       apply frames_bind; [apply frames_ask|]. intros hint.
       destruct (fill_gen Addr 0 hint _ _ _) as [[[w n] kept] p].
       destruct p; [apply frames_panic|].
       apply frames_bind; [|intros; apply frames_ret].
       intros s. cbn. apply FR_upd. apply FR_refl.
-  - intros [body room3]. apply frames_bind; [apply frames_get|]. intros f1.
-    apply frames_bind; [|intros; apply frames_emit].
+  - intros [body room3]. apply frames_bind; [|intros; apply frames_emit].
+    unfold send_customs. apply frames_bind; [apply frames_get|]. intros f1.
     destruct (_ && _ && _); [|apply frames_ret].
     destruct (customs f1); [apply frames_ret|].
     apply frames_bind; [apply frames_ask|]. intros hint.
@@ -855,15 +991,15 @@ Proof.
   - destruct (periodic_guard tok (st s)); [|exact H].
     destruct (periodic_announce (cfg (st s))) as [[fq n]|]; [|exact H].
     apply okres_keeps; [|exact H].
-    apply keeps_bind; [apply keeps_emit; exact I|]. intros _. apply keeps_choose_and_send.
+    apply keeps_bind; [apply keeps_emit_ns; reflexivity|]. intros _. apply keeps_choose_and_send.
   - destruct (periodic_guard tok (st s)); [|exact H].
     destruct (periodic_announce_down (cfg (st s))) as [[fq n]|]; [|exact H].
     apply okres_keeps; [|exact H].
-    apply keeps_bind; [apply keeps_emit; exact I|]. intros _. apply keeps_announce_to_down.
+    apply keeps_bind; [apply keeps_emit_ns; reflexivity|]. intros _. apply keeps_announce_to_down.
   - destruct (periodic_guard tok (st s)); [|exact H].
     destruct (periodic_gossip (cfg (st s))) as [[fq n]|]; [|exact H].
     apply okres_keeps; [|exact H].
-    apply keeps_bind; [apply keeps_emit; exact I|]. intros _.
+    apply keeps_bind; [apply keeps_emit_ns; reflexivity|]. intros _.
     destruct (updates (st s)), (customs (st s)); try apply keeps_ret; apply keeps_choose_and_send.
   - (* remove down *)
     unfold modify. cbn.
@@ -1041,7 +1177,43 @@ Proof.
   - exact CK.
   - constructor.
   - constructor.
+  - constructor.
   - exact I.
 Qed.
 
 End Inv.
+
+(* ---- the pass instantiated with the trivial effect property ---- *)
+Section Plain.
+Context {Id Addr : Type} {IO : IdOps Id Addr} {CO : CodecOps Id} {HO : HandlerOps Id}.
+Context {IL : IdLaws IO} {EL : @ExtraLaws Id Addr IO CO}.
+
+Definition dest_ok (a0 : Addr) (al : Id -> Prop) (e : effect Id) : Prop :=
+  match e with
+  | Send d _ => addr_of d <> a0 \/ al d
+  | _ => True
+  end.
+
+Lemma trivial_Qe_send (rnd : oracle) : forall dst msg (s : @rs Id Addr HO),
+  WF (st s) ->
+  match send_message rnd dst msg s with
+  | (s', ROk _) => forall b, out s' = out s ++ [Send dst b] -> True
+  | _ => True
+  end.
+Proof. intros dst msg s _. destruct (send_message rnd dst msg s) as [s' [a|e|p]]; auto. Qed.
+
+Theorem step_preserves_plain (rnd : oracle) (f : @foca Id Addr HO) (i : @input Id) :
+  WF f -> input_ok (addr_of (identity f)) i ->
+  let '(f', effs, r, _) := step rnd f i in
+  WF f' /\ addr_of (identity f') = addr_of (identity f)
+  /\ Forall (dest_ok (addr_of (identity f)) (named_by i)) effs
+  /\ not_panicked r.
+Proof.
+  intros W I0.
+  pose proof (step_preserves rnd (fun _ => True) (fun _ _ => I) (trivial_Qe_send rnd) f i W I0) as H.
+  destruct (step rnd f i) as [[[f' effs] r] k]. destruct H as (W' & A' & O' & P').
+  split; [exact W'|split; [exact A'|split; [|exact P']]].
+  eapply Forall_impl; [|exact O']. intros e [He _]. exact He.
+Qed.
+
+End Plain.
